@@ -37,22 +37,27 @@ package loadbalancer
 //@ pred ticketAt(rr *RoundRobinStrategy, c0 int, t int) *Backend := rr.backends[((c0 + t) % 18446744073709551616) % len(rr.backends)]
 //@ func (*RoundRobinStrategy).NextBackend
 //@   props C02 C05 C12
+//@   mode seq, mon
 //@   requires unlocked(rr.mutex) && noBackendLocks()
 //@   requires forall i int :: {rr.backends[i]} 0 <= i && i < len(rr.backends) ==> rr.backends[i] != nil
-//@   ensures empty: len(rr.backends) == 0 ==> result == nil && rr.current == old(rr.current)
-//@   ensures at_most_one_turn: len(rr.backends) > 0 ==> 1 <= ticketsTaken(rr.current, old(rr.current)) && ticketsTaken(rr.current, old(rr.current)) <= len(rr.backends)
-//@   ensures rotation: result != nil ==> result == rr.backends[rr.current % len(rr.backends)]
+//@   ensures seq: empty: len(rr.backends) == 0 ==> result == nil && rr.current == old(rr.current)
+//@   ensures seq: at_most_one_turn: len(rr.backends) > 0 ==> 1 <= ticketsTaken(rr.current, old(rr.current)) && ticketsTaken(rr.current, old(rr.current)) <= len(rr.backends)
+//@   ensures seq: rotation: result != nil ==> result == rr.backends[rr.current % len(rr.backends)]
 //@   ensures picked_is_eligible: result != nil ==> candidateAt(result, now())
-//@   ensures only_ejected_backends_are_skipped: forall t int :: {tkt(t)} 1 <= t && t < ticketsTaken(rr.current, old(rr.current)) ==> !candidateAt(ticketAt(rr, old(rr.current), tkt(t)), entry_now())
-//@   ensures nil_only_after_a_full_turn_of_ejected_backends: result == nil && len(rr.backends) > 0 ==> ticketsTaken(rr.current, old(rr.current)) == len(rr.backends) && !candidateAt(rr.backends[rr.current % len(rr.backends)], entry_now())
+//@   ensures seq: only_ejected_backends_are_skipped: forall t int :: {tkt(t)} 1 <= t && t < ticketsTaken(rr.current, old(rr.current)) ==> !candidateAt(ticketAt(rr, old(rr.current), tkt(t)), entry_now())
+//@   ensures seq: nil_only_after_a_full_turn_of_ejected_backends: result == nil && len(rr.backends) > 0 ==> ticketsTaken(rr.current, old(rr.current)) == len(rr.backends) && !candidateAt(rr.backends[rr.current % len(rr.backends)], entry_now())
+// C05 "exactly k of any n*k requests however they interleave" / C02 "503 only if every backend is inside a window": a pick
+// must not come back empty-handed while an eligible backend exists - also when other pickers draw tickets in between
+// (mon mode: the shared counter moves between this picker's draws).
+//@   ensures mon: a_pick_is_empty_only_if_no_backend_is_eligible@C05: result == nil && len(rr.backends) > 0 ==> forall i int :: {rr.backends[i]} 0 <= i && i < len(rr.backends) ==> !candidateAt(rr.backends[i], entry_now())
 //@   ensures member: result != nil ==> exists i int :: 0 <= i && i < len(rr.backends) && rr.backends[i] == result
 //@   modifies rr.current
 //@ loop (*RoundRobinStrategy).NextBackend #0
 //@   props C02 C05 C12
 //@   invariant idx: -1 <= rangeindex && rangeindex < len(rr.backends)
 //@   invariant same: rlocked(rr.mutex) && n == len(rr.backends) && len(rr.backends) > 0
-//@   invariant tickets: rr.current == (old(rr.current) + rangeindex + 1) % 18446744073709551616
-//@   invariant skipped: forall t int :: {tkt(t)} 1 <= t && t <= rangeindex + 1 ==> !candidateAt(ticketAt(rr, old(rr.current), tkt(t)), entry_now())
+//@   invariant seq: tickets: rr.current == (old(rr.current) + rangeindex + 1) % 18446744073709551616
+//@   invariant seq: skipped: forall t int :: {tkt(t)} 1 <= t && t <= rangeindex + 1 ==> !candidateAt(ticketAt(rr, old(rr.current), tkt(t)), entry_now())
 //@   decreases len(rr.backends) - rangeindex
 //@   modifies rr.current
 
